@@ -30,6 +30,50 @@ def run(ctx):
     fx, res = ctx.fx, ctx.res
     has_env = "env" in fx.crate("clap_builder").features
     gm = fx.body("clap_builder::parser::parser::Parser::get_matches_with")
+    # ---- R6.1b (name-independent) order of EFFECTS: anywhere in the parser, once a value has been recorded with source DefaultValue nothing is
+    # recorded with source EnvVariable any more — also not on the next round of a loop (per-argument interleaving of env and default lets a
+    # conditional default read the matches before another argument's env value is in them)
+    if has_env:
+        pbs = fx.bodies(r"^clap_builder::parser::parser::")
+        kind = {}
+        for b in pbs:
+            for c in b.calls_to(r"Parser::react$"):
+                vs = agg_variants(b, c.args[2]) or []
+                for v in vs:
+                    if v in ("EnvVariable", "DefaultValue"):
+                        kind.setdefault(b.q, set()).add(v)
+        changed = True
+        while changed:      # close over callers inside the parser module
+            changed = False
+            for b in pbs:
+                for c in b.calls():
+                    q = c.callee_q or ""
+                    if q.endswith("Parser::get_matches_with"):
+                        continue        # a subcommand level: its own matcher, its own phases (checked for that body)
+                    top = b
+                    while top.kind == "Closure" and top.parent is not None:
+                        top = top.parent
+                    for qq in (b.q,):
+                        if q in kind and not kind[q] <= kind.get(qq, set()):
+                            kind.setdefault(qq, set()).update(kind[q]); changed = True
+        def eff(b, c):
+            if c.is_(r"Parser::react$"):
+                return set(v for v in (agg_variants(b, c.args[2]) or []) if v in ("EnvVariable", "DefaultValue"))
+            # effects inside a closure passed to the call are ordered inside that closure's own body (it is analysed as a body of its own);
+            # attributing them to the call site would order the error-recovery closure of get_matches_with before the normal phases
+            return set() if (c.callee_q or "").endswith("Parser::get_matches_with") else set(kind.get(c.callee_q or "", set()))
+        n_e = 0
+        for b in pbs:
+            es = [c for c in b.calls() if "EnvVariable" in eff(b, c)]
+            ds = [c for c in b.calls() if "DefaultValue" in eff(b, c)]
+            n_e += len(es)
+            for d in ds:
+                after = b.reachable(d.target if d.target is not None else d.bb)
+                late = [e for e in es if e.bb in after and e is not d]
+                res.check(not late, "R6.1", "effect|env-before-defaults|" + b.q.rsplit("::", 1)[1], d.where(), "no environment value is applied after a default",
+                          "%s applies an environment value (%s) after a default may already have been applied (%s), e.g. on the next round of the same loop: a conditional default is computed before another argument's environment value is in the matches" % (
+                              b.q, late[0].where() if late else "", d.where()))
+        res.floor("R6.1", "sites that (transitively) record an environment value", n_e, 3)
     order = ["Parser::parse$", "Parser::resolve_pending$"] + (["Parser::add_env$"] if has_env else []) + ["Parser::add_defaults$", "Validator::validate$"]
     calls = []
     for rx in order:
@@ -188,6 +232,17 @@ def run(ctx):
     res.check(ADD.startswith("T:is_some_and(") or bool(absent) and all(op_int(s_["rv"]["op"]) == 0 for i, j, s_ in ad.stmts() if i in absent and s_["k"] == "assign" and s_["place"] in adds and s_["rv"]["k"] == "use"),
               "R6.7", "condition-false-when-absent", ad.where(), "a condition on an argument without matches is false", "a conditional default fires although the argument it depends on is not in the matches")
 
+
+    # ---- R6.3c what Arg::env stores is the variable's value as the OS reports it (set-but-empty is a value)
+    if has_env:
+        ev = fx.body("clap_builder::builder::arg::Arg::env")
+        ws = [expr(ev, s_["rv"]["op"]) for i, s_ in writes_field(ev, "env") if s_["rv"]["k"] == "use"]
+        somes = [w for w in ws if w.startswith("Option::Some(")]
+        res.floor("R6.3", "Arg::env stores Some((name, value))", len(somes), 1)
+        for w in somes:
+            m = re.fullmatch(r"Option::Some\(tuple\((.*),var_os\((.*)\)\)\)", w)
+            res.check(m is not None and m.group(1) == m.group(2), "R6.3", "env-value-as-reported", ev.where(), "env = Some((name, env::var_os(name)))",
+                      "Arg::env stores %s: the variable's value is filtered or rewritten before it is recorded (a set variable can count as unset, or a different text is parsed)" % w[:140])
 
     # ---- R6.3b the environment value reaches react unchanged, for every argument
     if has_env:
